@@ -22,6 +22,7 @@ import (
 	"strings"
 	"sync"
 	"sync/atomic"
+	"syscall"
 	"time"
 )
 
@@ -91,6 +92,10 @@ type Controller struct {
 	RandFn  func(b []byte)
 	IntnFn  func(n int) int
 	AfterFn func(d time.Duration, f func())
+
+	// Resource cap: writes beyond this file offset fail with ENOSPC (0 = 64 MiB),
+	// so that a corrupt allocation limit cannot create multi-GiB sparse files.
+	MaxFileSize int64
 
 	// Step counting.
 	Ticks      int64
@@ -536,6 +541,16 @@ func FileWriteString(site string, f *os.File, s string) (int, error) {
 func FileWriteAt(site string, f *os.File, b []byte, off int64) (int, error) {
 	c := active.Load()
 	call := c.before(site, "File.WriteAt", fname(f), fmt.Sprint(off))
+	if call != nil && call.Inject == nil {
+		max := c.MaxFileSize
+		if max == 0 {
+			max = 64 << 20
+		}
+		if off+int64(len(b)) > max {
+			call.Inject = syscall.ENOSPC
+			call.Arg2 += " (resource cap)"
+		}
+	}
 	if call != nil && call.Inject != nil {
 		err := pathErr("write", fname(f), call.Inject)
 		c.after(call, err)
